@@ -775,3 +775,20 @@ mutant("dk-yajilin-frame", "C11", PZ + "yajilin.py", "    grid_frame = BoolGridF
 mutant("dk-putteria-columns", "C11", PZ + "putteria.py", "    for x in range(width):\n        for y1 in range(height):\n            for y2 in range(y1 + 1, height):", "    for x in range(height):\n        for y1 in range(width):\n            for y2 in range(y1 + 1, width):", "IDX-2")
 variant("akr-keys-after-constraints", "C11", PZ + "yajilin.py", ["    solver.add_answer_key(grid_frame)\n    solver.add_answer_key(black_cell)\n", "    is_sat = solver.solve()\n    return is_sat, grid_frame, black_cell"], ["", "    solver.add_answer_key(grid_frame, black_cell)\n    is_sat = solver.solve()\n    return is_sat, grid_frame, black_cell"])
 variant("idx-akari-ge1", "C11", PZ + "akari.py", "                    if y > 0 and problem[y - 1][x] < -1:", "                    if y >= 1 and problem[y - 1][x] < -1:")
+
+# ---- C04 ---------------------------------------------------------------------------------------
+AVC = "        less_ranks = [((ranks[j] < ranks[i]) & is_active[j]) for j, _ in graph.incident_edges[i]]"
+mutant("enc-avc-nonstrict", "C04", GRAPH, AVC, AVC.replace("ranks[j] < ranks[i]", "ranks[j] <= ranks[i]"), "ENC-S")
+mutant("enc-avc-inactive-support", "C04", GRAPH, AVC, AVC.replace("((ranks[j] < ranks[i]) & is_active[j])", "(ranks[j] < ranks[i])"), "ENC-S")
+mutant("enc-avc-exactly-one", "C04", GRAPH, "            solver.ensure(then(is_active[i], count_true(less_ranks + [is_root[i]]) >= 1))", "            solver.ensure(then(is_active[i], count_true(less_ranks + [is_root[i]]) == 1))", "ENC-S")
+mutant("enc-avc-two-roots", "C04", GRAPH, "    solver.ensure(count_true(is_root) <= 1)\n\n\n@overload\ndef active_vertices_connected(", "    solver.ensure(count_true(is_root) <= 2)\n\n\n@overload\ndef active_vertices_connected(", "ENC-S")
+mutant("enc-avc-one-root-forced", "C04", GRAPH, "    solver.ensure(count_true(is_root) <= 1)\n\n\n@overload\ndef active_vertices_connected(", "    solver.ensure(count_true(is_root) == 1)\n    solver.ensure([then(r, a) for r, a in zip(is_root, is_active)])\n\n\n@overload\ndef active_vertices_connected(", "ENC-S", "exactly one active root: rejects the empty set")
+mutant("enc-avc-rank-domain", "C04", GRAPH, "    ranks = solver.int_array(n, 0, n - 1)\n    is_root = solver.bool_array(n)\n\n    for i in range(n):\n        less_ranks = [((ranks[j]", "    ranks = solver.int_array(n, 0, max(0, n - 2))\n    is_root = solver.bool_array(n)\n\n    for i in range(n):\n        less_ranks = [((ranks[j]", "ENC-S")
+mutant("enc-avc-acyclic-no-distinct", "C04", GRAPH, "                if i < j:\n                    solver.ensure(ranks[j] != ranks[i])\n            solver.ensure(then(is_active[i], count_true(less_ranks + [is_root[i]]) == 1))", "                pass\n            solver.ensure(then(is_active[i], count_true(less_ranks + [is_root[i]]) == 1))", "ENC-S")
+mutant("enc-avc-acyclic-as-connected", "C04", GRAPH, "            solver.ensure(then(is_active[i], count_true(less_ranks + [is_root[i]]) == 1))\n        else:", "            solver.ensure(then(is_active[i], count_true(less_ranks + [is_root[i]]) >= 1))\n        else:", "ENC-S")
+mutant("enc-grid-graph-guard", ["C04", "C08"], GRAPH, "            if x < width - 1:\n                graph.add_edge(y * width + x, y * width + (x + 1))", "            if x < width:\n                graph.add_edge(y * width + x, y * width + (x + 1))", "ALG-6")
+mutant("enc-grid-graph-stride", ["C04", "C08"], GRAPH, "                graph.add_edge(y * width + x, (y + 1) * width + x)", "                graph.add_edge(y * width + x, (y + 1) * height + x)", "ALG-6")
+variant("enc-avc-flipped-compare", "C04", GRAPH, AVC, AVC.replace("ranks[j] < ranks[i]", "ranks[i] > ranks[j]"))
+variant("enc-avc-count-gt0", "C04", GRAPH, "            solver.ensure(then(is_active[i], count_true(less_ranks + [is_root[i]]) >= 1))", "            solver.ensure(then(is_active[i], count_true([is_root[i]] + less_ranks) > 0))")
+variant("enc-avc-root-lt2", "C04", GRAPH, "    solver.ensure(count_true(is_root) <= 1)\n\n\n@overload\ndef active_vertices_connected(", "    solver.ensure(~(count_true(is_root) >= 2))\n\n\n@overload\ndef active_vertices_connected(")
+variant("enc-avc-bigger-ranks", "C04", GRAPH, "    ranks = solver.int_array(n, 0, n - 1)\n    is_root = solver.bool_array(n)\n\n    for i in range(n):\n        less_ranks = [((ranks[j]", "    is_root = solver.bool_array(n)\n    ranks = solver.int_array(n, 1, n + 3)\n\n    for i in range(n):\n        less_ranks = [((ranks[j]")
